@@ -245,3 +245,5 @@ _add("C06", "text", "The library entry points annet.annlib.filter_acl.make_acl /
 _add("C18", "text", "The model is also given as a string and without a default; a menu of real model names must resolve to its family; a model no expression matches resolves to the generic vendor.")
 _add("C19", "text", "Declining also happens from inside run() (NotSupportedDevice).")
 _add("C11", "text", "Huawei VLANs declared by a bare `vlan N` next to the batch line; Cisco trunk lists written as `none`.")
+_add("C16", "technique", "; design-level model of the two compositions (MC_FrontEnds) with a regression instance")
+_add("C16", "text", "MC_FrontEnds: over every diff level of up to five entries with a patch logic that looks at the whole group of its key, grouping the complete diff (both front ends) agrees; stripping before grouping (the composition before repair 28efb2a) violates Agree.")
